@@ -683,7 +683,8 @@ class ResetChannel(raw_types.Gate):
         self._dimension = dimension
 
     def _has_stabilizer_effect_(self) -> bool | None:
-        return True
+        # The stabilizer formalism (and the simulators built on it) is for qubits.
+        return self._dimension == 2
 
     def _qasm_(self, args: cirq.QasmArgs, qubits: tuple[cirq.Qid, ...]) -> str | None:
         args.validate_version('2.0', '3.0')
